@@ -1507,6 +1507,12 @@ def unwrap(t: tp.Any) -> tp.Any:
             t = t.__supertype__
             continue
 
+        if type(t) is tp.TypeVar:
+            # A type variable stands for its bound, its constraints, or anything at all.
+            lt = t
+            t = normalize_typevar(t)
+            continue
+
         return t
     return t
 
